@@ -335,6 +335,10 @@ func (dm *DMap) putOnCluster(e *env) error {
 }
 
 func (dm *DMap) writePutCommand(e *env) (*redis.StatusCmd, error) {
+	if e.putConfig.OnlyUpdateTTL {
+		// Expire only updates the expiry, it has its own command.
+		return protocol.NewPExpire(e.dmap, e.key, e.timeout).Command(dm.s.ctx), nil
+	}
 	cmd := protocol.NewPut(e.dmap, e.key, e.value)
 	switch {
 	case e.putConfig.HasEX:
